@@ -60,6 +60,13 @@ type Mod struct {
 	// the module into a private parent directory may set it; they remove the
 	// file themselves when it becomes empty.
 	OuterConf string `json:"outer_conf,omitempty"`
+	// ExtDep: a second module, example.com/extdep, in the directory next to
+	// the module root, required and directory-replaced in go.mod and imported
+	// by package 0 (1: its function Old is deprecated, 2: it is not - same
+	// length). Same restriction as OuterConf: only for engines that own the
+	// parent directory.
+	ExtDep  int `json:"ext_dep,omitempty"`
+	ExtBody int `json:"ext_body,omitempty"`
 }
 
 const (
@@ -76,6 +83,15 @@ func pkgName(i int) string { return fmt.Sprintf("p%d", i) }
 func (m *Mod) Files() map[string]string {
 	out := map[string]string{}
 	out["go.mod"] = fmt.Sprintf("module %s\n\ngo %s\n", m.Path, m.Go)
+	if m.ExtDep > 0 {
+		out["go.mod"] += "\nrequire example.com/extdep v0.0.0\n\nreplace example.com/extdep => ../extdep\n"
+		out["../extdep/go.mod"] = "module example.com/extdep\n\ngo 1.21\n"
+		dep := "Deprecated"
+		if m.ExtDep == 2 {
+			dep = "Deprecatex"
+		}
+		out["../extdep/extdep.go"] = fmt.Sprintf("// Package extdep lives in another module.\npackage extdep\n\n// Old does things.\n//\n// %s: use New.\nfunc Old() int { return %d }\n\n// New does things.\nfunc New() int { return 2 }\n", dep, 1+m.ExtBody)
+	}
 	if m.RootConf != "" {
 		out["staticcheck.conf"] = m.RootConf
 	}
@@ -104,8 +120,12 @@ func (m *Mod) renderPkg(i int, out map[string]string) {
 		w("//lint:file-ignore SA4000 generated exception\n\n")
 	}
 	w("// Package %s is generated.\npackage %s\n\n", name, name)
-	if len(p.Imports) > 0 {
+	ext := i == 0 && m.ExtDep > 0
+	if len(p.Imports) > 0 || ext {
 		w("import (\n")
+		if ext {
+			w("\t\"example.com/extdep\"\n")
+		}
 		for _, d := range p.Imports {
 			w("\t%q\n", m.Path+"/"+pkgName(d))
 		}
@@ -164,6 +184,9 @@ func (m *Mod) renderPkg(i int, out map[string]string) {
 	}
 	// Use: exercises facts of dependencies
 	w("// Use uses the dependencies.\nfunc Use() int {\n\tn := 0\n")
+	if ext {
+		w("\tn += extdep.Old()\n")
+	}
 	for _, d := range p.Imports {
 		dn := pkgName(d)
 		w("\tn += %s.F()\n", dn)
@@ -298,8 +321,12 @@ func (m *Mod) renderPlain(i int, out map[string]string) {
 		w("//\n")
 	}
 	w("// Package %s is generated.\npackage %s\n\n", name, name)
-	if len(p.Imports) > 0 {
+	ext := i == 0 && m.ExtDep > 0
+	if len(p.Imports) > 0 || ext {
 		w("import (\n")
+		if ext {
+			w("\t\"example.com/extdep\"\n")
+		}
 		for _, d := range p.Imports {
 			w("\t%q\n", m.Path+"/"+pkgName(d))
 		}
@@ -336,6 +363,9 @@ func (m *Mod) renderPlain(i int, out map[string]string) {
 		w("// V2 holds a value of a type two import edges away.\nvar V2 = %s.Via()\n\n", pkgName(p.Imports[0]))
 	}
 	w("// Use uses the dependencies.\nfunc Use() int {\n\tsink++\n\tn := sink\n")
+	if ext {
+		w("\tn += extdep.Old()\n")
+	}
 	for _, d := range p.Imports {
 		dn := pkgName(d)
 		w("\tn += %s.F()\n", dn)
